@@ -1,5 +1,5 @@
 import sys
-sys.path.insert(0,'/repo')
+if not any(p.endswith('fixed') for p in sys.path): sys.path.insert(0,'/repo')
 from hidc.lexer import SourceCode
 from hidc.parser import parse
 from hidc.ast import Environment
